@@ -23,6 +23,7 @@
 //                                            model: a legitimate mutator; the dump of the model afterwards is part of the result)
 //               extvar:<A>:<M>               Analyser::addExternalVariable(first variable of M): documented state of the analyser
 //               clone:<M>:<M2>   equals:<M>:<M2>   dump:<M>   release:<M>
+//               deep:<0|1>                   include hasUnresolvedImports() / isDefined() in the before / after status of models
 //               touch                        a bare XmlNode::convertToString (internal)
 //               set:<0|1>                    the application calls xmlKeepBlanksDefault itself
 //               hset / hget                  install a structured error handler / report whether it is still installed
@@ -180,11 +181,14 @@ static std::string rewriteStringsInDump(const std::string &d, const std::vector<
 static void identComponent(const ComponentPtr &c, std::vector<const void *> &v, size_t depth)
 {
     v.push_back(c.get());
+    v.push_back(c->parent().get());
     v.push_back(c->importSource().get());
     for (size_t i = 0; i < c->variableCount(); ++i) {
         auto x = c->variable(i);
         v.push_back(x.get());
+        v.push_back(x->parent().get());
         v.push_back(x->units().get());
+        v.push_back(x->units() != nullptr ? x->units()->parent().get() : nullptr);
         for (size_t j = 0; j < x->equivalentVariableCount(); ++j) {
             v.push_back(x->equivalentVariable(j).get());
         }
@@ -192,6 +196,7 @@ static void identComponent(const ComponentPtr &c, std::vector<const void *> &v, 
     for (size_t i = 0; i < c->resetCount(); ++i) {
         auto r = c->reset(i);
         v.push_back(r.get());
+        v.push_back(r->parent().get());
         v.push_back(r->variable().get());
         v.push_back(r->testVariable().get());
     }
@@ -211,6 +216,7 @@ static std::vector<const void *> identity(const ModelPtr &m)
     v.push_back(m.get());
     for (size_t i = 0; i < m->unitsCount(); ++i) {
         v.push_back(m->units(i).get());
+        v.push_back(m->units(i)->parent().get());
         v.push_back(m->units(i)->importSource().get());
     }
     for (size_t i = 0; i < m->componentCount(); ++i) {
@@ -219,19 +225,59 @@ static std::vector<const void *> identity(const ModelPtr &m)
     return v;
 }
 
+// the "lazily fixable" status of a model: what a service might be tempted to repair in place
+// (hasUnlinkedUnits / hasImports / use counts are cycle-safe; hasUnresolvedImports and isDefined recurse through units and are
+// asked only when the model has imports, where the generators keep units acyclic)
+static std::string statusOf(const ModelPtr &m, bool deep)
+{
+    if (m == nullptr) {
+        return "null";
+    }
+    std::string s = "unlinked=" + std::to_string(m->hasUnlinkedUnits()) + ",imports=" + std::to_string(m->hasImports())
+                    + ",units=" + std::to_string(m->unitsCount()) + ",comps=" + std::to_string(m->componentCount());
+    if (deep) {
+        s += ",unresolved=" + std::to_string(m->hasUnresolvedImports()) + ",defined=" + std::to_string(m->isDefined());
+    }
+    return s;
+}
+
 struct Snap
 {
     std::string dump;
+    std::string status;
     std::vector<const void *> ident;
-    bool operator==(const Snap &o) const { return dump == o.dump && ident == o.ident; }
+    bool operator==(const Snap &o) const { return dump == o.dump && ident == o.ident && status == o.status; }
 };
+
+static bool gDeepStatus = false;
 
 static Snap snap(const ModelPtr &m)
 {
     Snap s;
     s.dump = m != nullptr ? dumpModel(m, false, false) : std::string("null");
+    s.status = statusOf(m, gDeepStatus);
     s.ident = identity(m);
     return s;
+}
+
+// number of objects (entities, units held by variables, import sources) that two models have in common
+static size_t sharedObjects(const ModelPtr &a, const ModelPtr &b)
+{
+    if (a == nullptr || b == nullptr) {
+        return 0;
+    }
+    auto ia = identity(a);
+    auto ib = identity(b);
+    std::set<const void *> sa(ia.begin(), ia.end());
+    sa.erase(nullptr);
+    std::set<const void *> seen;
+    size_t n = 0;
+    for (const void *p : ib) {
+        if (p != nullptr && sa.count(p) != 0 && seen.insert(p).second) {
+            ++n;
+        }
+    }
+    return n;
 }
 
 static std::string maskHasModel(std::string d)
@@ -480,6 +526,7 @@ static std::string runCase(const std::string &line)
 {
     World w;
     std::string out;
+    gDeepStatus = false;
     for (const auto &step : splitws(line, ' ')) {
         if (step.empty()) {
             continue;
@@ -489,7 +536,9 @@ static std::string runCase(const std::string &line)
         std::string r;
         auto arg = [&](size_t i) { return i < f.size() ? f[i] : std::string(); };
         auto has = [&](const std::string &x) { return std::find(f.begin() + 1, f.end(), x) != f.end(); };
-        if (op == "G" || op == "set") {
+        if (op == "deep") {
+            gDeepStatus = arg(1) == "1";
+        } else if (op == "G" || op == "set") {
             xmlKeepBlanksDefault(arg(1) == "1" ? 1 : 0);
         } else if (op == "parse") {
             auto &p = w.parsers[arg(1)];
@@ -670,7 +719,10 @@ static std::string runCase(const std::string &line)
             w.models[arg(3)] = flat;
             std::string mh = modelHashes(flat);
             mh.replace(mh.find(" Hn="), 4, " Fn=");
+            // RN: the result is another object than the input; RS: objects the result shares with the input
             r = "F" + mh.substr(1) + " " + issuesView(im) + " U=" + std::to_string(before == snap(m)) + " UL=" + std::to_string(ul)
+                + " RN=" + (flat == nullptr ? std::string("-") : std::to_string(flat != m)) + " RS=" + std::to_string(sharedObjects(m, flat))
+                + " st=" + before.status
                 + " nl=" + std::to_string(others.size());
         } else if (op == "removeall") {
             auto &im = w.importers[arg(1)];
@@ -701,7 +753,10 @@ static std::string runCase(const std::string &line)
             r += " " + issuesView(an);
         } else if (op == "clone") {
             auto m = w.models[arg(1)];
-            w.models[arg(2)] = m != nullptr ? m->clone() : nullptr;
+            Snap before = snap(m);
+            auto cl = m != nullptr ? m->clone() : nullptr;
+            w.models[arg(2)] = cl;
+            r = "U=" + std::to_string(before == snap(m)) + " RN=" + (cl == nullptr ? std::string("-") : std::to_string(cl != m));
         } else if (op == "equals") {
             auto a = w.models[arg(1)];
             auto b = w.models[arg(2)];
